@@ -909,10 +909,6 @@ def gen_c19(read, num):
     return lines, broken
 
 
-C07_CONN_OPS = ["send_message", "send_to_name", "link", "unlink", "monitor", "demonitor"]
-C07_NODE_FNS = ["send_remote", "link", "unlink", "monitor", "demonitor"]
-
-
 STATE_STRUCTS = [
     ("crates/edp_client/src/connection.rs", "Connection"),
     ("crates/edp_client/src/transport.rs", "FramedTransport"),
@@ -2926,11 +2922,387 @@ def gen_c17(read, num):
     return lines, broken
 
 
+def _strip_macro_calls(text, name):
+    """Remove every `name!( … )` (balanced) from whitespace-free text."""
+    out = []
+    i = 0
+    key = name + "!("
+    while True:
+        j = text.find(key, i)
+        if j < 0:
+            out.append(text[i:])
+            break
+        out.append(text[i:j])
+        depth = 0
+        k = j + len(key) - 1
+        while k < len(text):
+            if text[k] == "(":
+                depth += 1
+            elif text[k] == ")":
+                depth -= 1
+                if depth == 0:
+                    break
+            k += 1
+        i = k + 1
+        if text[i:i + 1] == ";":
+            i += 1
+    return "".join(out)
+
+
+def _callee_of_try(text, close):
+    """`text[close]` is the `)` of a `…(…)?`: the callee expression in front of the matching `(`."""
+    depth = 0
+    k = close
+    while k >= 0:
+        if text[k] == ")":
+            depth += 1
+        elif text[k] == "(":
+            depth -= 1
+            if depth == 0:
+                break
+        k -= 1
+    j = k
+    while j > 0 and re.match(r"[A-Za-z0-9_:.]", text[j - 1]):
+        j -= 1
+    name = text[j:k]
+    if name.endswith(".await"):
+        name = name[:-len(".await")]
+    return name
+
+
+def _recv_events(seg):
+    """Events of one stretch of `receive_message` in textual order: ('mut', what) — a statement that changes connection
+    state — and ('exit', kind, label) — a place where the iteration ends."""
+    ev = []
+    for m in re.finditer(r"self\.fragment_assembler\.([a-z_]+)\(", seg):
+        ev.append((m.start(), ("mut", "fragment_assembler." + m.group(1))))
+    for m in re.finditer(r"&mutself\.atom_cache", seg):
+        ev.append((m.start(), ("mut", "atom_cache")))
+    for m in re.finditer(r"\)(?:\.await)?\?", seg):
+        name = _callee_of_try(seg, m.start())
+        if name.endswith("map_err") and "read_exact(" in seg[max(0, m.start() - 160):m.start()]:
+            name = "read_exact"
+        ev.append((m.start(), ("exit", "err", name.split("::")[-1].split(".")[-1])))
+        if name.endswith("read_message"):
+            # from here on a frame has been taken off the transport
+            ev.append((m.start() + 1, ("mut", "transport.read_frame")))
+    for m in re.finditer(r"returnErr\(Error::([A-Za-z]+)", seg):
+        ev.append((m.start(), ("exit", "err", "Err" + m.group(1))))
+    for m in re.finditer(r"returnSelf::([a-z_]+)\(", seg):
+        end = seg.find(";", m.end())
+        end = end if end >= 0 else m.end()
+        ev.append((end, ("exit", "result", m.group(1))))
+        # what the returned call is handed as `&mut` is changed on this path only
+        ev = [(p, ("mut_in_return", e[1])) if e[0] == "mut" and m.start() < p < end else (p, e) for p, e in ev]
+    for m in re.finditer(r"continue;", seg):
+        ev.append((m.start(), ("exit", "continue", "continue")))
+    for m in re.finditer(r"returnOk\(", seg):
+        ev.append((m.start(), ("exit", "ok", "Ok")))
+    ev.sort(key=lambda e: e[0])
+    return [e[1] for e in ev]
+
+
+def gen_c06(read, num):
+    """C06 part: every place where one iteration of the loop of `Connection::receive_message` ends (`?`, `return Err`,
+    `return Self::decode_complete_fragment(…)`, `continue`, `return Ok`), by dispatch branch, with the statements that have
+    changed connection state before it on that path (frame taken off the transport, assembler calls, the atom cache handed
+    out as `&mut`); likewise for `receive_message_from_read_half` and `receive_raw`. The wire tags the dispatch compares with."""
+    broken = []
+    lines = []
+    rows = []      # (key, kind, [mutations])
+    rh_rows = []
+    raw_rows = []
+    tags = {}
+    conn = read("crates/edp_client/src/connection.rs")
+    if conn is None:
+        broken.append("connection.rs missing")
+    else:
+        for name in ("VERSION_TAG", "PASS_THROUGH", "DIST_HEADER", "DIST_FRAG_HEADER", "DIST_FRAG_CONT"):
+            m = re.search(r"const\s+" + name + r"\s*:\s*u8\s*=\s*([0-9_]+)\s*;", conn)
+            if not m:
+                broken.append(f"const {name}: u8 = <n>; not found in connection.rs")
+            else:
+                tags[name] = num(m.group(1))
+
+        def clean(body):
+            t = re.sub(r"//[^\n]*", "", body)
+            t = re.sub(r"\s+", "", t)
+            for mac in ("trace", "debug", "warn", "error", "info"):
+                t = _strip_macro_calls(t, mac)
+            return t
+
+        body = _fn_body(conn, r"pub\s+async\s+fn\s+receive_message\s*\(\s*&mut\s+self\s*\)[^{]*\{")
+        if body is None:
+            broken.append("fn receive_message(&mut self) body not found in connection.rs")
+        else:
+            t = clean(body)
+            marks = [
+                ("gate", ""),
+                ("head", "loop{"),
+                ("frag_header", "ifdata.len()>=2&&data[0]==VERSION_TAG&&data[1]==DIST_FRAG_HEADER{"),
+                ("frag_cont", "}elseifdata.len()>=2&&data[0]==VERSION_TAG&&data[1]==DIST_FRAG_CONT{"),
+                ("pass_through", "let(control_term,message)=if!data.is_empty()&&data[0]==PASS_THROUGH{"),
+                ("dist_header", "}elseifdata.len()>=2&&data[0]==VERSION_TAG&&data[1]==DIST_HEADER{"),
+                ("unmarked", "}else{"),
+                ("tail", "};"),
+            ]
+            pos = []
+            at = 0
+            ok = True
+            for name, mk in marks:
+                j = t.find(mk, at) if mk else 0
+                if j < 0:
+                    broken.append(f"receive_message: dispatch marker of `{name}` (`{mk}`) not found in this order")
+                    ok = False
+                    break
+                pos.append((name, j))
+                at = j + len(mk)
+            if ok:
+                segs = {}
+                for k, (name, j) in enumerate(pos):
+                    end = pos[k + 1][1] if k + 1 < len(pos) else len(t)
+                    segs[name] = _recv_events(t[j:end])
+                # the tick test sits in the head, after the clean-up
+                if "ifdata.is_empty(){continue;}" not in t[pos[1][1]:pos[2][1]]:
+                    broken.append("receive_message: `if data.is_empty() { continue; }` not found before the dispatch")
+
+                def walk(prefix, evs, pre, out):
+                    seen = {}
+                    cur = list(pre)
+                    local = []
+                    for e in evs:
+                        if e[0] == "mut":
+                            cur.append(e[1])
+                        elif e[0] == "mut_in_return":
+                            local.append(e[1])
+                        else:
+                            n = seen.get(e[2], 0)
+                            seen[e[2]] = n + 1
+                            out.append((prefix + ":" + e[2] + ("" if n == 0 else f"#{n + 1}"), e[1], list(cur) + local))
+                            local = []
+                    return cur
+
+                walk("gate", segs["gate"], [], rows)
+                head = walk("head", segs["head"], [], rows)
+                for b in ("frag_header", "frag_cont", "unmarked"):
+                    walk(b, segs[b], head, rows)
+                for b in ("pass_through", "dist_header"):
+                    after = walk(b, segs[b], head, rows)
+                    walk(b + ">tail", segs["tail"], after, rows)
+        body = _fn_body(conn, r"pub\s+async\s+fn\s+receive_message_from_read_half\s*\(")
+        if body is None:
+            broken.append("fn receive_message_from_read_half body not found in connection.rs")
+        else:
+            t = clean(body)
+            if "self." in t:
+                broken.append("receive_message_from_read_half touches `self` (the model has it stateless)")
+            cur = []
+            seen = {}
+            for e in _recv_events(t):
+                if e[0] == "mut":
+                    cur.append(e[1])
+                else:
+                    n = seen.get(e[2], 0)
+                    seen[e[2]] = n + 1
+                    rh_rows.append(("rh:" + e[2] + ("" if n == 0 else f"#{n + 1}"), e[1], list(cur)))
+        body = _fn_body(conn, r"pub\s+async\s+fn\s+receive_raw\s*\(\s*&mut\s+self\s*\)[^{]*\{")
+        if body is None:
+            broken.append("fn receive_raw body not found in connection.rs")
+        else:
+            t = clean(body)
+            evs = _recv_events(t)
+            if t.endswith("self.read_message().await"):
+                evs.append(("exit", "result", "read_message"))
+            cur = []
+            for e in evs:
+                if e[0] == "mut":
+                    cur.append(e[1])
+                else:
+                    raw_rows.append(("raw:" + e[2], e[1], list(cur)))
+
+    def strs(xs):
+        return "[" + ", ".join('"' + x + '"' for x in xs) + "]"
+
+    def table(name, doc, rs):
+        lines.append(doc)
+        lines.append(f"def {name} : List (String × String × List String) := [")
+        for k, (key, kind, pre) in enumerate(rs):
+            lines.append(f'  ("{key}", "{kind}", {strs(pre)})' + ("," if k + 1 < len(rs) else ""))
+        lines.append("]")
+        lines.append("")
+
+    for name in ("VERSION_TAG", "PASS_THROUGH", "DIST_HEADER", "DIST_FRAG_HEADER", "DIST_FRAG_CONT"):
+        lines.append(f"/-- `{name}` of crates/edp_client/src/connection.rs -/")
+        lines.append(f"def RECV_{name} : Nat := {tags.get(name, 0)}")
+    lines.append("")
+    table("RECV_EXITS",
+          "/-- `Connection::receive_message`: every place where one iteration of its loop ends, as `branch:site` (the dispatch\n"
+          "branch, then the callee of the `?` / the error variant of a `return Err` / `continue` / `Ok`; `a>tail` = the common tail\n"
+          "reached from branch `a`), what ends there (`err`: only an error leaves here; `result`: the callee's `Result` is returned as\n"
+          "it is; `continue`; `ok`), and the statements that have changed connection state before it on that path, in order -/",
+          rows)
+    table("RECV_RH_EXITS",
+          "/-- the same for `Connection::receive_message_from_read_half` (a static function: no connection state to change) -/",
+          rh_rows)
+    table("RECV_RAW_EXITS", "/-- the same for `Connection::receive_raw` -/", raw_rows)
+    return lines, broken
+
+
+MAILBOX_FILES = ["mailbox.rs", "process.rs", "registry.rs", "node.rs", "gen_server.rs", "gen_event.rs"]
+MAILBOX_CHANNEL_METHODS = ("send", "try_send", "send_timeout", "blocking_send", "reserve", "try_reserve", "reserve_owned",
+                           "try_reserve_owned", "reserve_many", "try_reserve_many", "send_many")
+
+
+def _balanced_end(src, i, open_c, close_c):
+    """Index just after the bracket that closes the one at src[i] (None if unbalanced)."""
+    depth = 0
+    for j in range(i, len(src)):
+        c = src[j]
+        if c == open_c:
+            depth += 1
+        elif c == close_c:
+            depth -= 1
+            if depth == 0:
+                return j + 1
+    return None
+
+
+def _enclosing_fn(src, pos):
+    last = None
+    for m in re.finditer(r"\bfn\s+([a-z_0-9]+)\s*[<(]", src[:pos]):
+        last = m.group(1)
+    return last or ""
+
+
+def gen_mailbox(read, num):
+    """C18 / C19 part: the mailbox capacity (mailbox.rs), the mailbox `Node::spawn` hands to a process, and for EVERY
+    place of crates/edp_node/src that puts a `Message` into a mailbox WHICH channel operation it uses: the `Message::V { .. }`
+    constructions with the method call they are an argument of (awaited or not, what happens to the result), and every call
+    of a channel method (`send`, `try_send`, `send_timeout`, `blocking_send`, `reserve` …) on a sender."""
+    broken = []
+    lines = []
+    cap = 0
+    new_arg = ""
+    spawn_mb = ""
+    deliveries = []   # (file, fn, variant, method, awaited, result)
+    chan_ops = []     # (file, fn, receiver, method, awaited)
+    handle_methods = []
+    constructions = 0
+    for fname in MAILBOX_FILES:
+        raw = read("crates/edp_node/src/" + fname)
+        if raw is None:
+            broken.append(fname + " missing")
+            continue
+        src = re.sub(r"//[^\n]*", "", raw)
+        cut = src.find("#[cfg(test)]")
+        if cut >= 0:
+            src = src[:cut]
+        if fname == "mailbox.rs":
+            m = re.search(r"const\s+DEFAULT_MAILBOX_CAPACITY\s*:\s*usize\s*=\s*([0-9_]+)\s*;", src)
+            if not m:
+                broken.append("mailbox.rs: const DEFAULT_MAILBOX_CAPACITY: usize = <n>; not found")
+            else:
+                cap = num(m.group(1))
+            body = _fn_body(src, r"pub\s+fn\s+new\s*\(\s*\)\s*->\s*Self")
+            m = re.search(r"mpsc::channel\(([A-Za-z0-9_]+)\)", _strip_ws(body or ""))
+            if not m:
+                broken.append("mailbox.rs: Mailbox::new does not build `mpsc::channel(<capacity>)`")
+            else:
+                new_arg = m.group(1)
+            if "unbounded" in src:
+                broken.append("mailbox.rs: an unbounded channel is mentioned")
+        if fname == "node.rs":
+            body = _fn_body(src, r"pub\s+async\s+fn\s+spawn\s*<")
+            m = re.search(r"letmailbox=([A-Za-z_:()0-9]+);", _strip_ws(body or ""))
+            if not m or "spawn_process(process,mailbox," not in _strip_ws(body or ""):
+                broken.append("node.rs: Node::spawn no longer has `let mailbox = <expr>;` handed to spawn_process")
+            else:
+                spawn_mb = m.group(1)
+        if fname == "process.rs":
+            ib = _fn_body(src, r"impl\s+ProcessHandle\s*")
+            if ib is None:
+                broken.append("process.rs: impl ProcessHandle not found")
+            else:
+                for m in re.finditer(r"(?:pub\s+)?(?:async\s+)?fn\s+([a-z_0-9]+)\s*\(", ib):
+                    b = _fn_body(ib[m.start():], r"fn\s+[a-z_0-9]+\s*\(") or ""
+                    if "mailbox_sender" in b and m.group(1) != "new":
+                        handle_methods.append(m.group(1))
+        # every construction of a Message that is an argument of a method call
+        for m in re.finditer(r"Message::([A-Z][A-Za-z]+)\s*\{", src):
+            before = src[:m.start()].rstrip()
+            if before.endswith("Control") or before.endswith("::"):
+                continue   # ControlMessage::V, a path
+            close = _balanced_end(src, m.end() - 1, "{", "}")
+            follows = src[close:].lstrip() if close else ""
+            is_pattern = follows.startswith("=>") or follows.startswith("|") or (follows.startswith("=") and not follows.startswith("=="))
+            if not is_pattern:
+                constructions += 1
+            if not before.endswith("("):
+                continue   # a pattern (match arm, if let) or a value bound to a name, not an argument
+            cm = re.search(r"\.\s*([a-z_0-9]+)\s*\($", before)
+            method = cm.group(1) if cm else "?"
+            call_open = len(before) - 1
+            call_end = _balanced_end(src, call_open, "(", ")")
+            after = src[call_end:].lstrip() if call_end else ""
+            awaited = after.startswith(".await")
+            rest = after[len(".await"):].lstrip() if awaited else after
+            stmt_start = max(src.rfind(";", 0, m.start()), src.rfind("{", 0, m.start()), src.rfind("}", 0, m.start()))
+            head = _strip_ws(src[stmt_start + 1:m.start()])
+            if rest.startswith("?"):
+                result = "propagated"
+            elif head.startswith("let_="):
+                result = "ignored"
+            else:
+                result = "other"
+            deliveries.append((fname, _enclosing_fn(src, m.start()), m.group(1), method, awaited, result))
+        # every channel operation on a sender
+        for m in re.finditer(r"([A-Za-z_][A-Za-z_0-9.]*)\s*\.\s*(" + "|".join(MAILBOX_CHANNEL_METHODS) + r")\s*\(", src):
+            recv = re.sub(r"\s+", "", m.group(1))
+            if not (recv.endswith("sender") or recv.endswith("mailbox_sender") or recv.endswith("tx")):
+                continue
+            call_end = _balanced_end(src, m.end() - 1, "(", ")")
+            after = src[call_end:].lstrip() if call_end else ""
+            chan_ops.append((fname, _enclosing_fn(src, m.start()), recv, m.group(2), after.startswith(".await")))
+    if not deliveries:
+        broken.append("no `.method(Message::V { .. })` construction found in crates/edp_node/src")
+
+    def b(x):
+        return "true" if x else "false"
+
+    lines.append("/-- `DEFAULT_MAILBOX_CAPACITY` of mailbox.rs -/")
+    lines.append(f"def MAILBOX_DEFAULT_CAPACITY : Nat := {cap}")
+    lines.append("/-- the argument of `mpsc::channel(..)` in `Mailbox::new` -/")
+    lines.append(f"def MAILBOX_NEW_CHANNEL_ARG : String := \"{new_arg}\"")
+    lines.append("/-- the mailbox `Node::spawn` hands to `spawn_process` -/")
+    lines.append(f"def NODE_SPAWN_MAILBOX : String := \"{spawn_mb}\"")
+    lines.append("/-- every `Message::V { .. }` of crates/edp_node/src that is built as the argument of a method call, in textual order per")
+    lines.append("file: (file, enclosing fn, variant, the method it is handed to, is the call awaited, what happens to the result:")
+    lines.append("`propagated` = `?`, `ignored` = `let _ =`) -/")
+    lines.append("def MAILBOX_DELIVERIES : List (String × String × String × String × Bool × String) := [")
+    lines.append(",\n".join(f"  (\"{f}\", \"{fn}\", \"{v}\", \"{me}\", {b(aw)}, \"{r}\")" for f, fn, v, me, aw, r in deliveries))
+    lines.append("]")
+    lines.append("/-- number of `Message::V { .. }` expressions (everything that is not a pattern), argument of a call or not -/")
+    lines.append(f"def MAILBOX_MESSAGE_CONSTRUCTIONS : Nat := {constructions}")
+    lines.append("/-- every call of a channel operation on a sender (`…sender.send(..)`, `try_send`, `send_timeout`, `blocking_send`,")
+    lines.append("`reserve` …) in crates/edp_node/src: (file, enclosing fn, receiver expression, method, awaited) -/")
+    lines.append("def MAILBOX_CHANNEL_OPS : List (String × String × String × String × Bool) := [")
+    lines.append(",\n".join(f"  (\"{f}\", \"{fn}\", \"{rc}\", \"{me}\", {b(aw)})" for f, fn, rc, me, aw in chan_ops))
+    lines.append("]")
+    lines.append("/-- the methods of `impl ProcessHandle` (other than `new`) that touch `mailbox_sender` -/")
+    lines.append("def PROCESS_HANDLE_SENDER_METHODS : List String := [" + ", ".join('"' + x + '"' for x in handle_methods) + "]")
+    lines.append("")
+    return lines, broken
+
+
+C07_CONN_OPS = ["send_message", "send_to_name", "link", "unlink", "monitor", "demonitor"]
+C07_NODE_FNS = ["send_remote", "link", "unlink", "monitor", "demonitor"]
+
+
 def run(read, emit, num):
     """One generated module per part (`Generated/Misc<Part>.lean`), so that a change of the source rebuilds only the models
     and theorems that read that part; `Generated/Misc.lean` imports them all (for convenience; nothing in the library
     imports it). A part may use the definitions of an earlier part: it then imports that part's module."""
-    parts = (gen_c16, gen_c09, gen_c04, gen_c15, gen_c13, gen_c18, gen_c19, gen_state, gen_c20, gen_c05, gen_c08, gen_c10, gen_c11, gen_c07, gen_c14, gen_c16b, gen_c02, gen_c01, gen_c17)
+    parts = (gen_c16, gen_c09, gen_c04, gen_c15, gen_c13, gen_c18, gen_c19, gen_state, gen_c20, gen_c05, gen_c08, gen_c10, gen_c11, gen_c07, gen_c14, gen_c16b, gen_c02, gen_c01, gen_c17, gen_c06, gen_mailbox)
     defined = {}   # generated name -> module that defines it
     mods = []
     for part in parts:
